@@ -335,88 +335,128 @@ def _subtrajectory_signals(rep, sess, tier, seed):
             rep.inconclusive_(site, "mode P did not prove causality and mode C found no replayable counterexample")
 
 
-def _gae_call_from_update_ppo(ppo):
+def _advantage_prefix_of_update_ppo(ppo):
+    """The statements of update_ppo (current source) that compute `advs, returns`, i.e. everything before the rollout
+    log-probabilities are taken, compiled into a function with update_ppo's own signature."""
     fn = ppo.update_ppo
     while hasattr(fn, "fun") or hasattr(fn, "__wrapped__"):
         fn = getattr(fn, "fun", None) or fn.__wrapped__
     src = textwrap.dedent(inspect.getsource(fn))
-    tree = ast.parse(src)
-    for node in ast.walk(tree):
-        if isinstance(node, ast.Call) and getattr(node.func, "id", getattr(node.func, "attr", None)) == "compute_gae":
-            return compile(ast.Expression(node), "<update_ppo:compute_gae call>", "eval"), ast.unparse(node)
-    raise V.Unsupported("no compute_gae call found in update_ppo")
+    fdef = next(n for n in ast.walk(ast.parse(src)) if isinstance(n, ast.FunctionDef) and n.name == "update_ppo")
+    body = [st for st in fdef.body if not (isinstance(st, ast.Expr) and isinstance(getattr(st, "value", None), ast.Constant))]
+    keep = []
+    for st in body:
+        txt = ast.unparse(st)
+        if "log_probability" in txt or "loss_grad_fn" in txt or isinstance(st, (ast.For, ast.Return)):
+            break
+        keep.append(st)
+    assigned = {t.id for st in keep for n in ast.walk(st) if isinstance(n, (ast.Assign,)) for tt in n.targets for t in ast.walk(tt) if isinstance(t, ast.Name)}
+    if not {"advs", "returns"} <= assigned:
+        raise V.Unsupported("update_ppo no longer computes `advs, returns` before taking the rollout log-probabilities")
+    new = ast.FunctionDef(name="_advantages", args=fdef.args, body=keep + [ast.parse("return advs, returns").body[0]], decorator_list=[], returns=None, type_params=[])
+    mod = ast.Module(body=[new], type_ignores=[])
+    ast.fix_missing_locations(mod)
+    ns = dict(vars(ppo))
+    exec(compile(mod, "<update_ppo: advantage computation>", "exec"), ns)
+    return ns["_advantages"], inspect.signature(fn), "; ".join(ast.unparse(st) for st in keep)
 
 
 def _ppo(rep, sess, tier, seed):
+    """train_ppo -> collect_trajectories -> update_ppo: the advantages update_ppo computes for one environment do not
+    depend on the other environments of the vectorised rollout.  The REAL train_ppo runs one iteration over a stub
+    vector env (symbolic arrays); its update_ppo call is intercepted, bound to update_ppo's signature, and the
+    advantage computation extracted from update_ppo's current source is executed on exactly those arguments."""
     from rl_blox.algorithm import ppo
     from rl_blox.blox.function_approximator.mlp import MLP
     from flax import nnx
-    code, text = _gae_call_from_update_ppo(ppo)
-    T, N, D = 3, 2, 2
-    critic = MLP(D, 1, [2], "relu", nnx.Rngs(seed))
-    gdef, st = nnx.split(critic)
+    from props.e2common import overlay
+    adv_fn, sig, text = _advantage_prefix_of_update_ppo(ppo)
+    rep.extra["ppo_advantage_statements_in_source"] = text
+    D = 2
+    for (T, N) in ([(3, 2)] if tier == "quick" else [(3, 2), (2, 3), (4, 2)]):
+        critic = MLP(D, 1, [2], "relu", nnx.Rngs(seed))
+        gdef, st = nnx.split(critic)
 
-    class NpShim:
-        def __getattr__(self, k):
-            return getattr(np, k)
+        class NpShim:
+            def __getattr__(self, k):
+                return getattr(np, k)
 
-        @staticmethod
-        def asarray(x, *a, **k):
-            return x
+            @staticmethod
+            def asarray(x, *a, **k):
+                return x
 
-    def fn(state, obs_seq, rewards, terms, key):
-        crit = nnx.merge(gdef, state)
+        class GymStub:
+            """what train_ppo touches of gymnasium: the statistics wrapper (identity here) and the autoreset constant"""
+            class vector:
+                class AutoresetMode:
+                    SAME_STEP = "same-step"
+                VectorEnv = object
 
-        class Envs:
-            def __init__(self):
-                self.t = 0
+            class wrappers:
+                class vector:
+                    RecordEpisodeStatistics = staticmethod(lambda e: e)
 
-            def reset(self):
-                return obs_seq[0], {}
+        def fn(state, obs_seq, rewards, terms, gdef=gdef, T=T, N=N):
+            crit = nnx.merge(gdef, state)
 
-            def step(self, action):
-                t = self.t
-                self.t += 1
-                return obs_seq[t + 1], rewards[t], terms[t], jnp.zeros(N, dtype=bool), {}
+            class Envs:
+                num_envs = N
+                metadata = {"autoreset_mode": GymStub.vector.AutoresetMode.SAME_STEP}
 
-        class Actor:
-            def sample(self, obs, key):
-                return jnp.zeros((N, 1))
-        old = ppo.np
-        ppo.np = NpShim()
-        try:
-            traj = ppo.collect_trajectories(Envs(), Actor(), crit, key, batch_size=T, logger=None)
-        finally:
-            ppo.np = old
-        ns = {"compute_gae": ppo.compute_gae, "critic": crit, "observation": traj.observation, "reward": traj.reward,
-              "next_value": traj.next_value, "terminated": traj.terminated, "jnp": jnp}
-        advs, rets = eval(code, ns)
-        return advs, rets, traj.reward
-    rng = np.random.default_rng(seed)
-    ex = (st, jnp.array(rng.normal(size=(T + 1, N, D)), dtype=jnp.float32), jnp.array(rng.normal(size=(T, N)), dtype=jnp.float32),
-          jnp.zeros((T, N)), jax.random.key(0))
-    e = E1(rep, sess, fn, ex, f"ppo.collect_trajectories+update_ppo.compute_gae[T={T},N={N}]", validate_sets=[ex])
-    rep.extra["ppo_gae_call_in_source"] = text
-    e.add_hyp(*flags01(S.SA(e.ins[3])))
-    # which flat position holds (env, t)?  derive from the returned reward layout (symbols are unique)
-    flat_r = list(np.asarray(e.outs[2], dtype=object).reshape(-1))
-    pos = {}
-    for env in range(N):
-        for t in range(T):
-            sym = e.ins[2][t, env]
-            hits = [k for k, x in enumerate(flat_r) if V.s_eq_struct(x, sym)]
-            if len(hits) != 1:
-                rep.inconclusive_(e.site, "cannot locate (env,t) in flattened rollout")
-                return
-            pos[(env, t)] = hits[0]
-    for env in range(N):
-        def vary(ins, env=env):
-            mo = np.ones((T + 1, N, D), dtype=bool); mo[:, env] = False
-            m2 = np.ones((T, N), dtype=bool); m2[:, env] = False
-            return (jax.tree_util.tree_map(lambda x: None, ins[0]), mo, m2, m2, None)
-        idx = [pos[(env, t)] for t in range(T)]
-        e.noninterference(f"env{env}-advantages-independent-of-other-envs", vary, lambda i, o, idx=idx: S.SA(o[0])[idx],
-                          site="ppo.update_ppo:gae-over-flattened-rollout-crosses-environment-boundary")
+                def __init__(self):
+                    self.t = 0
+
+                def reset(self, seed=None):
+                    return obs_seq[0], {}
+
+                def step(self, action):
+                    t = self.t
+                    self.t += 1
+                    return obs_seq[t + 1], rewards[t], terms[t], jnp.zeros(N, dtype=bool), {}
+
+            class Actor:
+                def sample(self, obs, key):
+                    return jnp.zeros((N, 1))
+            got = {}
+
+            def capture(*a, **k):
+                ba = sig.bind(*a, **k)
+                ba.apply_defaults()
+                got["adv"] = adv_fn(*ba.args, **ba.kwargs)
+                got["reward"] = ba.arguments["reward"]
+                return jnp.zeros(())
+            with overlay(ppo, np=NpShim(), gym=GymStub, update_ppo=capture, trange=lambda n, **k: range(n)):
+                ppo.train_ppo(Envs(), Actor(), crit, None, None, iterations=1, epochs=1, batch_size=T, seed=0, logger=None, progress_bar=False)
+            advs, rets = got["adv"]
+            return advs, rets, got["reward"]
+        rng = np.random.default_rng(seed)
+        ex = (st, jnp.array(rng.normal(size=(T + 1, N, D)), dtype=jnp.float32), jnp.array(rng.normal(size=(T, N)), dtype=jnp.float32), jnp.zeros((T, N)))
+        e = E1(rep, sess, fn, ex, f"ppo.train_ppo->collect_trajectories->update_ppo[T={T},N={N}]", validate_sets=[ex])
+        e.add_hyp(*flags01(S.SA(e.ins[3])))
+        # which flat position holds (env, t)?  derive from the returned reward layout (symbols are unique)
+        flat_r = list(np.asarray(e.outs[2], dtype=object).reshape(-1))
+        pos = {}
+        ok = True
+        for env in range(N):
+            for t in range(T):
+                sym = e.ins[2][t, env]
+                hits = [k for k, x in enumerate(flat_r) if V.s_eq_struct(x, sym)]
+                if len(hits) != 1:
+                    ok = False
+                else:
+                    pos[(env, t)] = hits[0]
+        if not ok:
+            rep.inconclusive_(e.site, "cannot locate (env,t) in flattened rollout")
+            continue
+        for env in range(N):
+            def vary(ins, env=env):
+                mo = np.ones((T + 1, N, D), dtype=bool); mo[:, env] = False
+                m2 = np.ones((T, N), dtype=bool); m2[:, env] = False
+                return (jax.tree_util.tree_map(lambda x: None, ins[0]), mo, m2, m2)
+            idx = [pos[(env, t)] for t in range(T)]
+            e.noninterference(f"env{env}-advantages-independent-of-other-envs", vary, lambda i, o, idx=idx: S.SA(o[0]).reshape(-1)[idx],
+                              site="ppo.update_ppo:gae-over-flattened-rollout-crosses-environment-boundary")
+
 
 
 def replay(path):
